@@ -105,7 +105,7 @@ CHECKS = {
 NOT_APPLICABLE = {}
 # checks whose quick tier the lead has run green on the current /repo HEAD (three seeds); the others stay listed under
 # not_applicable ("under construction") until verified
-ENABLED = ["C01", "C02", "C03", "C04", "C05", "C06", "C07", "C09", "C10", "C11", "C12", "C13", "C14", "C15", "C16", "C17", "C18", "C20"]
+ENABLED = ["C01", "C02", "C03", "C04", "C05", "C06", "C07", "C09", "C10", "C11", "C12", "C13", "C14", "C15", "C16", "C17", "C18", "C19", "C20"]
 ALL = ["C%02d" % i for i in range(1, 21)]
 PENDING_REASON = "check under construction in this round: not yet claimed (no evidence produced); see DESIGN.md section 8"
 
